@@ -139,7 +139,7 @@ Spec == Init /\ [][Next]_vars
 AtEnd == l = NRec + 1
 Brief == IF AtEnd THEN [l |-> l, bad |-> bad] ELSE [l |-> l]
 
-Holds(p) == AtEnd => \A b \in bad : b[1] # p
+Holds(p) == AtEnd => NoneFor(bad, p)
 C01 == Holds("C01")
 C02 == Holds("C02")
 C05 == Holds("C05")
